@@ -1,5 +1,6 @@
 (* Proofs about the (s,S) model (Alg/SS.v): renewal equation, stationary distribution of the inventory-position chain,
-   cost ratio = stationary cost, and what the Zheng-Federgruen search guarantees about the pair it returns. *)
+   cost ratio = stationary cost, loop invariants of the Zheng-Federgruen search, unimodality of the discrete newsvendor cost,
+   and global optimality of the returned pair (ZF's theorem: sections Unimodal / Opt). *)
 From SV Require Import Base.Qx Alg.SS.
 
 (* ---- generic facts about finite sums ---- *)
@@ -584,3 +585,253 @@ Theorem zf_returns_its_cost pmf G K fuel ystar s U g :
   (forall l, 0 <= pf pmf l) -> pf pmf 0 < 1 -> 0 < K ->
   zf_from pmf G K fuel ystar = Ok (s, U, g) -> (s < U)%Z /\ g = gcost pmf G K s U.
 Proof. intros Hnn H0 HK H. destruct (zf_generic pmf G K fuel ystar s U g Hnn H0 HK H) as (A & _ & B & _). split; assumption. Qed.
+
+(* ================= global optimality of the pair returned by the search ================= *)
+(* triangular exchange of summation: sum_{j<n} sum_{l<=j} F l (j-l) = sum_{l<n} sum_{i<n-l} F l i *)
+Lemma tri_exchange (F : nat -> nat -> Q) n :
+  qsum_range (fun j => qsum_range (fun l => F l (j - l)%nat) 0 (S j)) 0 n ==
+  qsum_range (fun l => qsum_range (fun i => F l i) 0 (n - l)) 0 n.
+Proof. induction n as [|n IH]; [cbn; lra|].
+  rewrite qsum_range_last, IH. rewrite (qsum_range_last _ 0 n). cbn [Nat.add].
+  replace (S n - n)%nat with 1%nat by lia.
+  rewrite (qsum_range_ext (fun l => qsum_range (fun i => F l i) 0 (S n - l)) (fun l => qsum_range (fun i => F l i) 0 (n - l) + F l (n - l)%nat) 0 n).
+  2:{ intros l Hl. replace (S n - l)%nat with (S (n - l)) by lia. rewrite qsum_range_last. cbn [Nat.add]. lra. }
+  rewrite qsum_range_add. rewrite (qsum_range_last (fun l => F l (n - l)%nat) 0 n). cbn [Nat.add qsum_range]. rewrite Nat.sub_diag. lra. Qed.
+
+Section Opt.
+Variable pmf : list Q.
+Variable G : Z -> Q.
+Variable K : Q.
+Hypothesis p0_lt1 : pf pmf 0 < 1.
+Hypothesis p_nonneg : forall l, 0 <= pf pmf l.
+Hypothesis p_sum1 : qsum pmf == 1.
+Hypothesis K_pos : 0 < K.
+Variable ystar : Z.
+Hypothesis G_dec : forall y, (y < ystar)%Z -> G (y + 1) <= G y.
+Hypothesis G_inc : forall y, (ystar <= y)%Z -> G y <= G (y + 1).
+Notation pf := (pf pmf).
+Notation m := (m pmf).
+Notation M := (M pmf).
+Notation c := (gcost pmf G K).
+Notation wGs := (wG pmf G).
+
+Lemma G_mono_left a : (a <= ystar)%Z -> forall k : nat, G a <= G (a - Z.of_nat k).
+Proof. intros Ha. induction k as [|k IH]; [rewrite Z.sub_0_r; lra|].
+  pose proof (G_dec (a - Z.of_nat (S k))%Z ltac:(lia)) as H.
+  replace (a - Z.of_nat (S k) + 1)%Z with (a - Z.of_nat k)%Z in H by lia. lra. Qed.
+Lemma G_le_left a b : (a <= b <= ystar)%Z -> G b <= G a.
+Proof. intros H. pose proof (G_mono_left b ltac:(lia) (Z.to_nat (b - a))) as Hm.
+  replace (b - Z.of_nat (Z.to_nat (b - a)))%Z with a in Hm by lia. exact Hm. Qed.
+Lemma G_le_right a b : (ystar <= a <= b)%Z -> G a <= G b.
+Proof. intros H. pose proof (G_mono_right G ystar G_inc a ltac:(lia) (Z.to_nat (b - a))) as Hm.
+  replace (a + Z.of_nat (Z.to_nat (b - a)))%Z with b in Hm by lia. exact Hm. Qed.
+
+(* phi g s U < 0  <->  c(s,U) < g *)
+Definition phi (g : Q) (s U : Z) : Q := K + wGs U (Z.to_nat (U - s)) - g * M (Z.to_nat (U - s)).
+Lemma c_times_M s U : (s < U)%Z -> c s U * M (Z.to_nat (U - s)) == K + wGs U (Z.to_nat (U - s)).
+Proof. intro Hs. pose proof (M_pos pmf p0_lt1 p_nonneg (Z.to_nat (U - s)) ltac:(lia)). rewrite gcost_spec. field. lra. Qed.
+Lemma phi_neg g s U : (s < U)%Z -> (c s U < g <-> phi g s U < 0).
+Proof. intro Hs. pose proof (M_pos pmf p0_lt1 p_nonneg (Z.to_nat (U - s)) ltac:(lia)) as HM.
+  pose proof (c_times_M s U Hs) as E. unfold phi. split; intro H; nra. Qed.
+Lemma phi_nonneg g s U : (s < U)%Z -> (g <= c s U <-> 0 <= phi g s U).
+Proof. intro Hs. pose proof (M_pos pmf p0_lt1 p_nonneg (Z.to_nat (U - s)) ltac:(lia)) as HM.
+  pose proof (c_times_M s U Hs) as E. unfold phi. split; intro H; nra. Qed.
+Lemma phi_step g s U : (s < U)%Z -> phi g (s - 1) U == phi g s U + m (Z.to_nat (U - s)) * (G s - g).
+Proof. intro Hs. unfold phi. replace (Z.to_nat (U - (s - 1))) with (S (Z.to_nat (U - s))) by lia.
+  rewrite M_S, wG_S. replace (U - Z.of_nat (Z.to_nat (U - s)))%Z with s by lia. ring. Qed.
+
+Lemma phi_down g s U : (s < U)%Z -> (forall y, (y <= s)%Z -> g <= G y) -> forall k : nat, phi g s U <= phi g (s - Z.of_nat k) U.
+Proof. intros Hs Hg. induction k as [|k IH]; [rewrite Z.sub_0_r; lra|].
+  replace (s - Z.of_nat (S k))%Z with (s - Z.of_nat k - 1)%Z by lia. rewrite phi_step by lia.
+  pose proof (m_nonneg pmf p0_lt1 p_nonneg (Z.to_nat (U - (s - Z.of_nat k)))) as Hm.
+  pose proof (Hg (s - Z.of_nat k)%Z ltac:(lia)). nra. Qed.
+Lemma phi_up' g s U : forall k : nat, (s + Z.of_nat k < U)%Z -> (forall y, (s < y <= s + Z.of_nat k)%Z -> G y <= g) ->
+  phi g s U <= phi g (s + Z.of_nat k) U.
+Proof. induction k as [|k IH]; intros Hk Hg; [rewrite Z.add_0_r; lra|].
+  specialize (IH ltac:(lia) ltac:(intros y Hy; apply Hg; lia)).
+  pose proof (phi_step g (s + Z.of_nat (S k)) U Hk) as E.
+  replace (s + Z.of_nat (S k) - 1)%Z with (s + Z.of_nat k)%Z in E by lia.
+  pose proof (m_nonneg pmf p0_lt1 p_nonneg (Z.to_nat (U - (s + Z.of_nat (S k))))) as Hm.
+  pose proof (Hg (s + Z.of_nat (S k))%Z ltac:(lia)). nra. Qed.
+
+(* to the right of y*-1 the cost is non-decreasing in s *)
+Lemma c_right_mono t U : (ystar - 1 <= t)%Z -> forall k : nat, (t + Z.of_nat k < U)%Z -> c t U <= c (t + Z.of_nat k) U.
+Proof. intros Ht. induction k as [|k IH]; intro Hk; [rewrite Z.add_0_r; lra|].
+  specialize (IH ltac:(lia)).
+  assert (Hlow : G (t + Z.of_nat k + 1) < c (t + Z.of_nat k) U).
+  { apply (c_lower pmf G K p0_lt1 p_nonneg K_pos); [lia|]. intros y Hy. apply G_le_right. lia. }
+  pose proof (cs_up pmf G K p0_lt1 p_nonneg (t + Z.of_nat k) U ltac:(lia) Hlow) as Hu.
+  replace (t + Z.of_nat (S k))%Z with (t + Z.of_nat k + 1)%Z by lia. lra. Qed.
+
+(* ZF's key lemma: if (s,g) passes the tests G(s) >= g > G(s+1), s < y*, any pair cheaper than g is witnessed with the same s *)
+Lemma same_s_witness g s : (s < ystar)%Z -> g <= G s -> G (s + 1) < g ->
+  forall s' U, (s' < U)%Z -> c s' U < g -> (s < U)%Z /\ c s U < g.
+Proof. intros Hs H1 H2 s' U Hs' Hc.
+  assert (Hleft : forall y, (y <= s)%Z -> g <= G y).
+  { intros y Hy. pose proof (G_le_left y s ltac:(lia)). lra. }
+  assert (Hmid : forall y, (s < y <= ystar)%Z -> G y < g).
+  { intros y Hy. pose proof (G_le_left (s + 1) y ltac:(lia)). lra. }
+  destruct (Z.le_gt_cases U s) as [HU|HU].
+  - exfalso. assert (g < c s' U); [|lra]. apply (c_lower pmf G K p0_lt1 p_nonneg K_pos); [exact Hs'|].
+    intros y Hy. apply Hleft. lia.
+  - split; [lia|]. apply phi_neg; [lia|].
+    destruct (Z.le_gt_cases s' s) as [Hle|Hgt].
+    + pose proof (phi_down g s U ltac:(lia) Hleft (Z.to_nat (s - s'))) as Hd.
+      replace (s - Z.of_nat (Z.to_nat (s - s')))%Z with s' in Hd by lia.
+      apply (phi_neg g s' U Hs') in Hc. lra.
+    + destruct (Z.lt_ge_cases s' ystar) as [Hlt|Hge].
+      * pose proof (phi_up' g s U (Z.to_nat (s' - s)) ltac:(lia)) as Hu.
+        replace (s + Z.of_nat (Z.to_nat (s' - s)))%Z with s' in Hu by lia.
+        specialize (Hu ltac:(intros y Hy; pose proof (Hmid y ltac:(lia)); lra)).
+        apply (phi_neg g s' U Hs') in Hc. lra.
+      * pose proof (c_right_mono (ystar - 1) U ltac:(lia) (Z.to_nat (s' - (ystar - 1))) ltac:(lia)) as Hr.
+        replace (ystar - 1 + Z.of_nat (Z.to_nat (s' - (ystar - 1))))%Z with s' in Hr by lia.
+        assert (Hc' : c (ystar - 1) U < g) by lra. apply (phi_neg g (ystar - 1) U ltac:(lia)) in Hc'.
+        pose proof (phi_up' g s U (Z.to_nat (ystar - 1 - s)) ltac:(lia)) as Hu.
+        replace (s + Z.of_nat (Z.to_nat (ystar - 1 - s)))%Z with (ystar - 1)%Z in Hu by lia.
+        specialize (Hu ltac:(intros y Hy; pose proof (Hmid y ltac:(lia)); lra)). lra.
+Qed.
+
+(* shifting a pair that lies entirely left of y* up to y* does not increase its cost *)
+Lemma shift_up s' U : (s' < U)%Z -> (U <= ystar)%Z -> c (s' + (ystar - U)) ystar <= c s' U.
+Proof. intros Hs HU. set (n := Z.to_nat (U - s')). assert (Hn : (1 <= n)%nat) by (unfold n; lia).
+  pose proof (M_pos pmf p0_lt1 p_nonneg n Hn) as HM.
+  rewrite (gcost_spec pmf G K (s' + (ystar - U)) ystar), (gcost_spec pmf G K s' U).
+  replace (Z.to_nat (ystar - (s' + (ystar - U)))) with n by (unfold n; lia). fold n.
+  assert (Hw : wGs ystar n <= wGs U n).
+  { unfold wG. apply qsum_range_le. intros d Hd.
+    pose proof (m_nonneg pmf p0_lt1 p_nonneg d) as Hm.
+    pose proof (G_le_left (U - Z.of_nat d) (ystar - Z.of_nat d) ltac:(lia)). nra. }
+  apply Qle_shift_div_l; [exact HM|]. 
+  assert (E : (K + wGs ystar n) / M n * M n == K + wGs ystar n) by (field; lra). lra. Qed.
+
+(* ---- conditioning on the first demand: the "top" recursion of the cycle cost and cycle length ---- *)
+Lemma ind0_sum (w : nat -> Q) n : (1 <= n)%nat -> qsum_range (fun j => (if Nat.eqb j 0 then 1 else 0) * w j) 0 n == w 0%nat.
+Proof. intro Hn. destruct n as [|n]; [lia|]. rewrite qsum_range_first. cbn [Nat.eqb]. rewrite qsum_range_zero; [lra|].
+  intros j Hj. destruct j; [lia|]. cbn [Nat.eqb]. lra. Qed.
+Lemma M_top n : (1 <= n)%nat -> M n == 1 + qsum_range (fun l => pf l * M (n - l)) 0 n.
+Proof. intro Hn. unfold SS.M at 1.
+  rewrite (qsum_range_ext m (fun j => qsum_range (fun l => pf l * m (j - l)) 0 (S j) + (if Nat.eqb j 0 then 1 else 0) * 1) 0 n).
+  2:{ intros j _. rewrite (m_renewal pmf p0_lt1 j) at 1. lra. }
+  rewrite qsum_range_add, (ind0_sum (fun _ => 1) n Hn), (tri_exchange (fun l i => pf l * m i) n).
+  rewrite (qsum_range_ext (fun l => qsum_range (fun i => pf l * m i) 0 (n - l)) (fun l => pf l * M (n - l)) 0 n); [lra|].
+  intros l _. rewrite qsum_range_scale. unfold SS.M. lra. Qed.
+Lemma wG_top U n : (1 <= n)%nat -> wGs U n == G U + qsum_range (fun l => pf l * wGs (U - Z.of_nat l) (n - l)) 0 n.
+Proof. intro Hn. unfold wG at 1.
+  rewrite (qsum_range_ext (fun d => m d * G (U - Z.of_nat d))
+     (fun j => qsum_range (fun l => pf l * (m (j - l) * G (U - Z.of_nat l - Z.of_nat (j - l)))) 0 (S j) + (if Nat.eqb j 0 then 1 else 0) * G (U - Z.of_nat j)) 0 n).
+  2:{ intros j _. rewrite (m_renewal pmf p0_lt1 j) at 1.
+      rewrite Qmult_plus_distr_l. rewrite Qmult_comm, <- qsum_range_scale.
+      rewrite (qsum_range_ext (fun i => G (U - Z.of_nat j) * (pf i * m (j - i))) (fun l => pf l * (m (j - l) * G (U - Z.of_nat l - Z.of_nat (j - l)))) 0 (S j)); [lra|].
+      intros l Hl. replace (U - Z.of_nat l - Z.of_nat (j - l))%Z with (U - Z.of_nat j)%Z by lia. lra. }
+  rewrite qsum_range_add, (ind0_sum (fun j => G (U - Z.of_nat j)) n Hn).
+  rewrite (tri_exchange (fun l i => pf l * (m i * G (U - Z.of_nat l - Z.of_nat i))) n).
+  rewrite (qsum_range_ext (fun l => qsum_range (fun i => pf l * (m i * G (U - Z.of_nat l - Z.of_nat i))) 0 (n - l)) (fun l => pf l * wGs (U - Z.of_nat l) (n - l)) 0 n).
+  2:{ intros l _. rewrite qsum_range_scale. unfold wG. lra. }
+  replace (U - Z.of_nat 0)%Z with U by lia. lra. Qed.
+
+Lemma tailp_nonneg k : 0 <= tailp pmf k.
+Proof. unfold tailp. apply qsum_nonneg. apply Forall_forall. intros x Hx.
+  assert (Hx' : In x pmf) by (rewrite <- (firstn_skipn k pmf); apply in_or_app; right; exact Hx).
+  destruct (In_nth _ _ 0 Hx') as (i & _ & <-). apply p_nonneg. Qed.
+
+Lemma phi_top g s U : (s < U)%Z -> let n := Z.to_nat (U - s) in
+  phi g s U == (G U - g) + K * tailp pmf n + qsum_range (fun l => pf l * phi g s (U - Z.of_nat l)) 0 n.
+Proof. intros Hs n. assert (Hn : (1 <= n)%nat) by (unfold n; lia).
+  unfold phi at 1. fold n. rewrite (wG_top U n Hn), (M_top n Hn), (tail_compl pmf p_sum1 n).
+  rewrite (qsum_range_ext (fun l => pf l * phi g s (U - Z.of_nat l)) (fun l => pf l * wGs (U - Z.of_nat l) (n - l) + ((- g) * (pf l * M (n - l)) + K * pf l)) 0 n).
+  2:{ intros l Hl. unfold phi. replace (Z.to_nat (U - Z.of_nat l - s)) with (n - l)%nat by (unfold n; lia). ring. }
+  rewrite !qsum_range_add, !qsum_range_scale. unfold Fm. ring. Qed.
+
+Lemma phi_top_pos g s U : (s < U)%Z -> (forall y, (s < y < U)%Z -> 0 <= phi g s y) -> g <= G U -> 0 <= phi g s U.
+Proof. intros Hs Hy Hg. pose proof (phi_top g s U Hs) as E. cbv zeta in E.
+  set (n := Z.to_nat (U - s)) in *. destruct n as [|n'] eqn:En; [unfold n in En; lia|].
+  rewrite qsum_range_first in E. replace (U - Z.of_nat 0)%Z with U in E by lia.
+  assert (Hr : 0 <= qsum_range (fun l => pf l * phi g s (U - Z.of_nat l)) 1 n').
+  { apply qsum_range_nonneg. intros l Hl. apply Qmult_le_0_compat; [apply p_nonneg|]. apply Hy. unfold n in En. lia. }
+  pose proof (tailp_nonneg (S n')). assert (0 <= K * tailp pmf (S n')) by (apply Qmult_le_0_compat; lra).
+  assert ((1 - pf 0) * phi g s U >= 0) by lra. nra. Qed.
+
+(* ---- the outer loop keeps "g_hat is optimal among all pairs with y* <= S' < S" ---- *)
+Definition opt_upto (g : Q) (U : Z) : Prop := forall S' s', (ystar <= S' < U)%Z -> (s' < S')%Z -> g <= c s' S'.
+
+Lemma outer_opt : forall fuel sh Sh gh U r, zf_inv pmf G K ystar sh Sh gh U -> opt_upto gh U ->
+  zf_outer pmf G K fuel sh Sh gh U = Ok r ->
+  let '(s, S', g) := r in
+  exists Uend, (S' < Uend)%Z /\ g < G Uend /\ opt_upto g Uend /\
+    (s < S')%Z /\ (ystar <= S')%Z /\ g = c s S' /\ c s S' <= G s /\ G (s + 1) < c s S'.
+Proof. induction fuel as [|f IH]; intros sh Sh gh U r Inv Opt H; [discriminate|].
+  destruct Inv as (I1 & I0 & I2 & I3 & I4 & I5).
+  cbn [zf_outer] in H.
+  destruct (qleb_spec (G U) gh) as [[HG E]|[HG E]]; rewrite E in H.
+  - destruct (qltb_spec (c sh U) gh) as [[Hlt E2]|[Hge E2]]; rewrite E2 in H.
+    + destruct (zf_inner pmf G K (S f) U sh) as [s'| | | |] eqn:Ein; try discriminate.
+      destruct (inner_spec pmf G K p0_lt1 p_nonneg K_pos _ _ _ _ Ein) as (J1 & J2 & J3 & J4).
+      assert (T1 : c s' U <= G s').
+      { destruct J3 as [->|J3]; [rewrite I2 in Hlt; lra|]. apply (cs_keep pmf G K p0_lt1 p_nonneg s' U ltac:(lia) J3). }
+      assert (Inv' : zf_inv pmf G K ystar s' U (c s' U) (U + 1)).
+      { split; [lia|]. split; [lia|]. split; [reflexivity|]. split; [exact T1|]. split; [exact J2|]. intros t Ht. lia. }
+      assert (Opt' : opt_upto (c s' U) (U + 1)).
+      { intros S'' s'' HS Hs''. destruct (Z.eq_dec S'' U) as [->|Hne].
+        - destruct (best_s_for_S pmf G K p0_lt1 p_nonneg K_pos ystar G_dec G_inc s' U ltac:(lia) T1 J2) as [_ B]. apply B. exact Hs''.
+        - pose proof (Opt S'' s'' ltac:(lia) Hs''). lra. }
+      exact (IH _ _ _ _ _ Inv' Opt' H).
+    + assert (Inv' : zf_inv pmf G K ystar sh Sh gh (U + 1)).
+      { split; [lia|]. split; [exact I0|]. split; [exact I2|]. split; [exact I3|]. split; [exact I4|].
+        intros t Ht. destruct (Z.eq_dec t U) as [->|Hne]; [split; assumption | apply I5; lia]. }
+      assert (Opt' : opt_upto gh (U + 1)).
+      { intros S'' s'' HS Hs''. destruct (Z.eq_dec S'' U) as [->|Hne]; [|apply Opt; [lia|exact Hs'']].
+        destruct (Qlt_le_dec (c s'' U) gh) as [Hbad|]; [exfalso|assumption].
+        pose proof (s_below_ystar pmf G K p0_lt1 p_nonneg K_pos ystar G_inc sh Sh ltac:(lia) I3) as Hsy.
+        destruct (same_s_witness gh sh Hsy ltac:(rewrite I2; exact I3) ltac:(rewrite I2; exact I4) s'' U Hs'' Hbad) as [_ Hw]. lra. }
+      exact (IH _ _ _ _ _ Inv' Opt' H).
+  - injection H as <-. exists U. split; [lia|]. split; [exact HG|]. split; [exact Opt|].
+    split; [lia|]. split; [exact I0|]. split; [exact I2|]. split; [exact I3|exact I4]. Qed.
+
+(* ---- ZF's theorem: no integer pair is cheaper than the returned one ---- *)
+Theorem zf_from_optimal fuel s S' g : zf_from pmf G K fuel ystar = Ok (s, S', g) ->
+  forall s' U', (s' < U')%Z -> g <= c s' U'.
+Proof. unfold zf_from. intro H. destruct (qeqb (pf 0) 1); [discriminate|].
+  destruct (zf_loop1 pmf G K fuel ystar ystar) as [s0| | | |] eqn:E1; try discriminate.
+  destruct (loop1_spec pmf G K _ _ _ _ E1) as (L1 & L2 & L3).
+  assert (L4 : G (s0 + 1) < c s0 ystar).
+  { destruct (Z.eq_dec (s0 + 1) ystar) as [Eq|Hne].
+    - pose proof (c_one_gt pmf G K p0_lt1 K_pos ystar) as Hc. replace (ystar - 1)%Z with s0 in Hc by lia. rewrite Eq. exact Hc.
+    - apply (cs_gt pmf G K p0_lt1 p_nonneg); [lia|]. apply L3. lia. }
+  assert (Inv : zf_inv pmf G K ystar s0 ystar (c s0 ystar) (ystar + 1)).
+  { split; [lia|]. split; [lia|]. split; [reflexivity|]. split; [exact L2|]. split; [exact L4|]. intros t Ht. lia. }
+  assert (Opt : opt_upto (c s0 ystar) (ystar + 1)).
+  { intros S'' s'' HS Hs''. assert (S'' = ystar) by lia. subst S''.
+    destruct (best_s_for_S pmf G K p0_lt1 p_nonneg K_pos ystar G_dec G_inc s0 ystar L1 L2 L4) as [_ B]. apply B. exact Hs''. }
+  pose proof (outer_opt _ _ _ _ _ _ Inv Opt H) as R. cbv beta iota in R.
+  destruct R as (Uend & R1 & R2 & R3 & R4 & R5 & R6 & R7 & R8).
+  pose proof (s_below_ystar pmf G K p0_lt1 p_nonneg K_pos ystar G_inc s S' R4 R7) as Hsy.
+  (* every pair (s, U') is at least g *)
+  assert (Low : forall U', (s < U' < Uend)%Z -> 0 <= phi g s U').
+  { intros U' HU. apply phi_nonneg; [lia|]. destruct (Z.lt_ge_cases U' ystar) as [Hl|Hg].
+    - pose proof (shift_up s U' ltac:(lia) ltac:(lia)) as Hsh.
+      pose proof (R3 ystar (s + (ystar - U'))%Z ltac:(lia) ltac:(lia)). lra.
+    - apply R3; lia. }
+  assert (All : forall k : nat, forall U', (s < U' < Uend + Z.of_nat k)%Z -> 0 <= phi g s U').
+  { induction k as [|k IHk]; intros U' HU; [apply Low; lia|].
+    destruct (Z.lt_ge_cases U' (Uend + Z.of_nat k)) as [Hl|Hg]; [apply IHk; lia|].
+    apply phi_top_pos; [lia| |].
+    - intros y Hy. apply IHk. lia.
+    - pose proof (G_le_right Uend U' ltac:(lia)). lra. }
+  intros s' U' Hs'. destruct (Qlt_le_dec (c s' U') g) as [Hbad|]; [exfalso|assumption].
+  destruct (same_s_witness g s Hsy ltac:(rewrite R6; exact R7) ltac:(rewrite R6; exact R8) s' U' Hs' Hbad) as [W1 W2].
+  apply (phi_neg g s U' W1) in W2.
+  pose proof (All (Z.to_nat (U' - Uend + 1)) U' ltac:(lia)). lra.
+Qed.
+End Opt.
+
+(* the custom-pmf entry point returns an optimal pair *)
+Theorem exact_optimal h p K pmf fuel s U g :
+  (forall l, 0 <= pf pmf l) -> qsum pmf == 1 -> pf pmf 0 < 1 ->
+  s_s_discrete_exact h p K pmf fuel = Ok (s, U, g) ->
+  forall s' U', (s' < U')%Z -> g <= gcost pmf (Gdisc h p pmf) K s' U'.
+Proof. intros Hnn H1 H0 H. unfold s_s_discrete_exact in H.
+  destruct (guards h p K pmf) eqn:Eg; cbn [negb] in H; [|discriminate].
+  destruct (guards_true _ _ _ _ Eg) as (Hh & Hp & HK).
+  destruct (Gdisc_unimodal h p pmf Hh Hp Hnn H1) as [Gd Gi].
+  exact (zf_from_optimal pmf (Gdisc h p pmf) K H0 Hnn H1 HK (ystar_disc h p pmf) Gd Gi fuel s U g H). Qed.
